@@ -38,6 +38,168 @@ pub enum HAct {
 
 pub struct TwoHandles;
 
+#[derive(Serialize, Deserialize, Clone, Debug)]
+pub struct OverlapParams {
+    pub mode: SchedMode,
+    pub commits: usize,
+    pub opens: usize,
+    pub compact_after: Option<usize>,
+    pub step_cap: u64,
+}
+
+impl TwoHandles {
+    /// The owner commits while a second thread tries to open the same files: every attempt
+    /// must be refused, and a refused attempt must leave the owner's files alone.
+    fn run_overlap(&self, case: &Case) -> CaseResult {
+        let mut res = CaseResult::default();
+        let params: OverlapParams = match serde_json::from_value(case.params.clone()) {
+            Ok(p) => p,
+            Err(e) => {
+                res.harness_error = Some(format!("bad params: {e}"));
+                return res;
+            }
+        };
+        let _shared = SPAWN_GATE.read().unwrap_or_else(|p| p.into_inner());
+        let sb = Sandbox::new("c10o");
+        let (ndb, wal) = (sb.ndb(), sb.wal());
+        let slot: Arc<Mutex<Option<Arc<GraphEngine>>>> = Arc::new(Mutex::new(None));
+        let acked: Arc<Mutex<Vec<u64>>> = Arc::new(Mutex::new(Vec::new()));
+        let opened: Arc<Mutex<Vec<Result<(), String>>>> = Arc::new(Mutex::new(Vec::new()));
+        let mut programs: Vec<(String, Program)> = Vec::new();
+        {
+            let slot = slot.clone();
+            let acked = acked.clone();
+            let (commits, compact_after) = (params.commits, params.compact_after);
+            programs.push((
+                "owner".into(),
+                Box::new(move || {
+                    let engine = slot.lock().unwrap().clone().unwrap();
+                    for i in 0..commits {
+                        let ext = 100 + 2 * i as u64;
+                        let mut tx = engine.begin_write();
+                        let ok = (|| -> Result<(), String> {
+                            let l = tx.get_or_create_label("H").map_err(|e| e.to_string())?;
+                            let r = tx.get_or_create_rel_type("R").map_err(|e| e.to_string())?;
+                            let a = tx.create_node(ext, l).map_err(|e| e.to_string())?;
+                            let b = tx.create_node(ext + 1, l).map_err(|e| e.to_string())?;
+                            tx.create_edge(a, r, b);
+                            tx.set_node_property(a, "k0".into(), ndb_storage::property::PropertyValue::Int(ext as i64));
+                            tx.set_node_property(b, "k0".into(), ndb_storage::property::PropertyValue::Int(ext as i64 + 1));
+                            Ok(())
+                        })();
+                        if ok.is_ok() && tx.commit().is_ok() {
+                            acked.lock().unwrap().push(ext);
+                        }
+                        if compact_after == Some(i) {
+                            let _ = engine.compact();
+                        }
+                    }
+                }),
+            ));
+        }
+        {
+            let opened = opened.clone();
+            let (ndb, wal, opens) = (ndb.clone(), wal.clone(), params.opens);
+            programs.push((
+                "second_opener".into(),
+                Box::new(move || {
+                    for _ in 0..opens {
+                        let r = open_engine(&ndb, &wal).map(|e| drop(e));
+                        opened.lock().unwrap().push(r);
+                    }
+                }),
+            ));
+        }
+        let slot2 = slot.clone();
+        let mut open_err = None;
+        let run = run_threads(&sb.dir, case.seed, params.mode.clone(), params.step_cap, case.schedule.clone(), programs, |world| {
+            let _g = world.install();
+            match open_engine(&ndb, &wal) {
+                Ok(e) => *slot2.lock().unwrap() = Some(Arc::new(e)),
+                Err(e) => open_err = Some(e),
+            }
+        });
+        *slot.lock().unwrap() = None;
+        if let Some(e) = open_err {
+            res.harness_error = Some(e);
+            return res;
+        }
+        res.stats.inc("evaluations");
+        res.stats.inc("config:overlapping_open");
+        res.stats.add("sched_steps", run.steps);
+        res.stats.see("interleavings", run.ctx_hash);
+        let schedule = Some(run.decisions.clone());
+        match &run.outcome {
+            Err(e) => {
+                res.harness_error = Some(format!("scheduler: {e}"));
+                return res;
+            }
+            Ok(Outcome::Completed) => {}
+            Ok(_) => {
+                res.stats.inc("inconclusive");
+                return res;
+            }
+        }
+        for (name, msg) in &run.panics {
+            res.viols.push(Viol { class: format!("panic:{name}"), detail: msg.clone(), focus: None, schedule: schedule.clone() });
+        }
+        let attempts = opened.lock().unwrap().clone();
+        if attempts.iter().any(|r| r.is_ok()) {
+            res.stats.inc("probe:second_open_succeeded");
+            res.viols.push(Viol {
+                class: "two_handles_open".into(),
+                detail: "a second handle was opened on the same files while the owner was committing".into(),
+                focus: None,
+                schedule,
+            });
+            return res;
+        }
+        res.stats.add("probe:second_open_refused", attempts.len() as u64);
+        // the refused attempts must not have touched the owner's files
+        let world = World::new(&sb.dir, case.seed);
+        let _g = world.install();
+        let acked = acked.lock().unwrap().clone();
+        match open_engine(&ndb, &wal) {
+            Err(e) => res.viols.push(Viol {
+                class: format!("refused_open_damaged_database:{}", crate::checks::crash::err_class(&e)),
+                detail: format!("after {} acknowledged commits and {} refused opens the database no longer opens: {e}", acked.len(), attempts.len()),
+                focus: None,
+                schedule,
+            }),
+            Ok(e) => {
+                let snap = e.snapshot();
+                let d = dump_snapshot(&snap, 0);
+                let mut bad: Vec<String> = d.inv.iter().map(|(c, t)| format!("[inv:{c}] {t}")).collect();
+                for ext in &acked {
+                    for x in [*ext, *ext + 1] {
+                        match d.g.nodes.values().find(|n| n.ext == x) {
+                            None => bad.push(format!("acknowledged node ext {x} is missing")),
+                            Some(n) => {
+                                if n.props.get("k0").map(|v| v.as_str()) != Some(format!("i:{x}").as_str()) {
+                                    bad.push(format!("node ext {x}: k0 = {:?}", n.props.get("k0")));
+                                }
+                            }
+                        }
+                    }
+                }
+                let edges: u32 = d.g.edges.values().map(|e| e.count).sum();
+                if (edges as usize) < acked.len() {
+                    bad.push(format!("{} relationships for {} acknowledged commits", edges, acked.len()));
+                }
+                if !bad.is_empty() {
+                    res.viols.push(Viol {
+                        class: "refused_open_damaged_database:content".into(),
+                        detail: format!("after {} acknowledged commits and {} refused opens: {}", acked.len(), attempts.len(), bad.join("; ")),
+                        focus: None,
+                        schedule,
+                    });
+                }
+            }
+        }
+        res
+    }
+}
+
 /// Perform one action on an (optional) engine; `Ok(true)` = acknowledged commit.
 fn do_act(slot: &mut Option<GraphEngine>, act: &HAct, ndb: &std::path::Path, wal: &std::path::Path) -> Result<bool, String> {
     match act {
@@ -183,6 +345,23 @@ impl Check for TwoHandles {
             };
             steps.push((h, act));
         }
+        if rng.chance(0.25) {
+            // the second open overlaps the owner's commits at I/O-step granularity
+            let params = OverlapParams {
+                mode: gen_mode(&mut rng),
+                commits: rng.range(1, 4) as usize,
+                opens: rng.range(1, 3) as usize,
+                compact_after: if rng.chance(0.3) { Some(rng.below(3) as usize) } else { None },
+                step_cap: 100_000,
+            };
+            return Case {
+                property: "C10".into(),
+                config: "overlapping_open".into(),
+                seed,
+                params: serde_json::to_value(&params).unwrap(),
+                ..Default::default()
+            };
+        }
         Case {
             property: "C10".into(),
             // handle B lives in a second OS process in a small share of the cases
@@ -220,6 +399,9 @@ impl Check for TwoHandles {
         true
     }
     fn run_case(&self, case: &Case) -> CaseResult {
+        if case.config == "overlapping_open" {
+            return self.run_overlap(case);
+        }
         let mut res = CaseResult::default();
         let steps: Vec<(usize, HAct)> = case.ops.iter().filter_map(|v| serde_json::from_value(v.clone()).ok()).collect();
         let sb = Sandbox::new("c10");
@@ -329,7 +511,7 @@ impl Check for TwoHandles {
         res
     }
     fn rule(&self) -> String {
-        "Two handles on one database path, sharing nothing but the directory: both in this process, or (3% of the cases, config two_processes) the second one in a separate OS process driven over a pipe, one action at a time; a PRNG-chosen interleaving of open / commit / compact / close / drop actions of both. Violation: an open succeeds while the other handle is open (the replay then closes both, reopens and reports which acknowledged commits were lost), or an open is refused although no other handle is open. evaluations = simulated interleavings; distinct_nontrivial = distinct action sequences.".into()
+        "Two handles on one database path, sharing nothing but the directory: both in this process, or (3% of the cases, config two_processes) the second one in a separate OS process driven over a pipe, one action at a time; a PRNG-chosen interleaving of open / commit / compact / close / drop actions of both. In a quarter of the cases (config overlapping_open) the owner commits on one simulated thread while a second thread repeatedly tries to open the same files, interleaved at I/O-step granularity by the seeded scheduler: every attempt must be refused and, after the run, the database must reopen with every acknowledged commit intact (a refused open must not touch the owner's files). Violation: an open succeeds while the other handle is open (the replay then closes both, reopens and reports which acknowledged commits were lost), or an open is refused although no other handle is open. evaluations = simulated interleavings; distinct_nontrivial = distinct action sequences.".into()
     }
     fn nontrivial_set(&self) -> &'static str {
         "interleavings"
